@@ -10,6 +10,17 @@ theorem be16_val (v : Nat) (h : v < 65536) :
   simp only [UInt8.toNat_ofNat']
   omega
 
+theorem u16At_isSome (bs : Bytes) (off : Nat) (h : off + 2 ≤ bs.length) :
+    (u16At bs off).isSome = true := by
+  have hl : 2 ≤ (bs.drop off).length := by simp; omega
+  unfold u16At
+  cases hd : bs.drop off with
+  | nil => simp [hd] at hl
+  | cons a t =>
+    cases t with
+    | nil => simp [hd] at hl
+    | cons b t' => simp
+
 @[simp] theorem be16_length (v : Nat) : (be16 v).length = 2 := rfl
 
 theorem u16At_be16 (v : Nat) (rest : Bytes) (h : v < 65536) :
